@@ -388,7 +388,11 @@ def eval_solver(case, ctx):
     for i, s in enumerate(done):
         xa, xb = s["x"], s["x_new"]
         if not (np.all(np.isfinite(xa)) and np.all(np.isfinite(xb)) and np.all(np.isfinite(s["delta"]))):
-            nonfinite_updates += 1      # NaN/inf Newton step (non-finite residual or Jacobian): no cap/monotonicity claim
+            nonfinite_updates += 1      # NaN/inf Newton step (non-finite residual or Jacobian): no cap claim
+            if st_tag == "armijo" and np.all(np.isfinite(xa)):
+                na = _safe_norm(R, hn, xa)
+                if na is not None and math.isfinite(na):   # the line search may only accept points it could evaluate
+                    fails.append(("armijo-accepted-undefined-point", "update %d moved from a finite point (|R| = %r) to a non-finite one" % (i, na)))
             continue
         if md_val is not None and math.isfinite(md_val):
             dx = float(np.max(np.abs(xb - xa)))
